@@ -52,5 +52,5 @@ def run_shard(item, stats):
         core.hyp_search(cachehist.history_case(max_ops=item["ops"]), check, stats, item["n"], item["seed"], km)
     else:
         geos = [cachehist.TINY_GEOMETRIES[g] for g in item.get("geos", range(8))]
-        core.run_cases(cachehist.tiny_cases(item["len"], item["part"], item["parts"], True, geos), check, stats, km)
+        core.run_cases(cachehist.tiny_cases(item["len"], item["part"], item["parts"], True, geos), check, stats, km, distinct=True)
         stats.exhaustive_parts.append(f"all 13^{item['len']} operation sequences of length {item['len']} on {len(geos)} tiny geometries")
